@@ -459,6 +459,18 @@ def gen_case(seed, c, special_mode=False):
             if s['id'] == 'ISA':
                 setv(s, 13, '1')
         faults.append('ta1')
+    if rnd.random() < 0.08:
+        # group control numbers padded with a blank (header and trailer alike: the envelope stays consistent)
+        pad = rnd.choice((' ', '  '))
+        cur = None
+        for s in doc:
+            if s['id'] == 'GS':
+                cur = (getv(s, 5, None) or '') + pad
+                setv(s, 5, cur)
+            elif s['id'] == 'GE' and cur is not None:
+                setv(s, 1, cur)
+                cur = None
+        faults.append('padded-gs06')
     delims = ('~', '*', ':', '^')
     text = render(doc, *delims)
     meta = {'maps': sorted(set(e['map_file'] for e in epool))[:3], 'icvn': icvn, 'shape': shape, 'faults': faults,
@@ -1195,6 +1207,12 @@ def run(tier):
                 if not any(k.startswith('crash:') for k, _ in w['viol']):
                     for name, detail in bad[:2]:
                         res.broke('correspondence:' + name, 'case %d faults %r: %s' % (w['c'], w['meta']['faults'], detail[:500]))
+    if built:
+        # end-to-end tie: the events and the acknowledgement the MODEL derives from the text (Model/Document.lean),
+        # not only from the captured call sequence, against the real run
+        from . import doc as docmod
+        sample = [w['text'] for w in results if w['exc'] is None and len(w['text']) < 30000]
+        docmod.attach(res, sample, 'c05-cases', limit=(300 if tier != 'quick' else 40))
     res.notes['input_distribution'] = dist
     res.notes['disagreements_checked'] = ndis
     res.assumptions = ['validation completes (x12n_document returns); runs that raise elsewhere are counted under out_of_scope_crashes (C07)',
